@@ -7,6 +7,7 @@ package tm
 import (
 	"encoding/json"
 	"fmt"
+	"regexp"
 	"strings"
 	"unicode/utf8"
 )
@@ -183,7 +184,14 @@ func Splice(s, tok string) string {
 		return ""
 	}
 	_, w := utf8.DecodeRuneInString(s)
-	return s[:w] + tok + s[w:]
+	out := s[:w] + tok
+	rest := s[w:]
+	// a multi-line string carries the token on its last line too, so that
+	// the fate of the text after the newline is observable
+	if nl := strings.LastIndexByte(rest, '\n'); nl >= 0 && nl+1 < len(rest) {
+		return out + rest[:nl+1] + tok + rest[nl+1:]
+	}
+	return out + rest
 }
 
 // REG is the "regular text" alphabet of the quantifiers: non-empty valid
@@ -281,18 +289,13 @@ func (t *Term) FillTokensKeeping() {
 	})
 }
 
+var tokenPattern = regexp.MustCompile(`Q7k\d\dZ`)
+
 // retoken replaces the token inside s (if any) by tok; a string without
 // token (the empty alphabet string, or an unassigned slot) becomes tok
 // only when it was unassigned.
 func retoken(s, tok string) string {
-	i := strings.Index(s, "Q7k")
-	if i < 0 || i+6 > len(s) || s[i+5] != 'Z' {
-		if s == "" {
-			return s
-		}
-		return s
-	}
-	return s[:i] + tok + s[i+6:]
+	return tokenPattern.ReplaceAllString(s, tok)
 }
 
 // Clone deep-copies the term (ops are shared).
@@ -463,3 +466,17 @@ var OpByName = map[string]*Op{}
 // GoExpr renders the term as Go source over the public API where the op
 // provides it (used in generated stand-alone tests); falls back to String.
 func (t *Term) GoExpr() string { return t.String() }
+
+// BuildDeep builds the term at the bottom of n extra (non-inlinable)
+// call frames, so that captured stacks are deeper than the library's
+// capture buffer.
+func (t *Term) BuildDeep(n int) error { return deepCall(n, t) }
+
+//go:noinline
+func deepCall(n int, t *Term) error {
+	if n <= 0 {
+		return t.Build()
+	}
+	e := deepCall(n-1, t)
+	return e
+}
